@@ -124,6 +124,15 @@ func (*Typechecker).VisitFieldAccess [C04]
   requires t != nil && t.Module != nil && t.Module.Ast != nil && t.panicMode != nil && expr != nil
   ensures !ddptypes.IsStruct(rhs) ==> t.Module.Ast.Faulty && t.latestReturnedType == box(mk[ddptypes.VoidType]())
 
+// a call: every argument whose type differs from its parameter's type is reported, and so is every field value of a
+// Kombination literal whose type differs from the field's type
+func (*Typechecker).VisitFuncCall [C04]
+  requires t != nil && t.Module != nil && t.Module.Ast != nil && t.panicMode != nil && callExpr != nil && callExpr.Func != nil
+  loop 0 each errExpr when !ddptypes.Equal(argType, paramType.Type)
+func (*Typechecker).VisitStructLiteral [C04]
+  requires t != nil && t.Module != nil && t.Module.Ast != nil && t.panicMode != nil && expr != nil && expr.Type != nil
+  loop 0 each errExpr when !ddptypes.Equal(argType, paramType)
+
 // --- statements: conditions and return values ---
 // the condition of a Wenn statement must be a Wahrheitswert
 func (*Typechecker).VisitIfStmt [C04]
